@@ -106,6 +106,11 @@ func memoryGuard(limit uint64) {
 		time.Sleep(10 * time.Millisecond)
 		runtime.ReadMemStats(&ms)
 		if ms.HeapAlloc > limit {
+			// garbage of earlier runs counts in HeapAlloc: collect first, then decide
+			runtime.GC()
+			runtime.ReadMemStats(&ms)
+		}
+		if ms.HeapAlloc > limit {
 			fmt.Fprintf(os.Stderr, "fatal error: out of memory (simulator heap limit %d MiB exceeded, heap=%d MiB)\n", limit>>20, ms.HeapAlloc>>20)
 			buf := make([]byte, 1<<16)
 			n := runtime.Stack(buf, true)
